@@ -143,33 +143,30 @@ def removeRepr (x f : Nat) : Option (Nat × Nat) :=
 
 -- ---------------------------------------------------------------- base/src/math/log.rs (no_std table)
 
-def LOG2_TAB : Array Nat := #[
-  0x00, 0x02, 0x05, 0x08, 0x0b, 0x0e, 0x10, 0x13, 0x16, 0x19, 0x1b, 0x1e, 0x21, 0x23, 0x26, 0x28,
-  0x2b, 0x2e, 0x30, 0x33, 0x35, 0x38, 0x3a, 0x3d, 0x3f, 0x41, 0x44, 0x46, 0x49, 0x4b, 0x4d, 0x50,
-  0x52, 0x54, 0x57, 0x59, 0x5b, 0x5d, 0x60, 0x62, 0x64, 0x66, 0x68, 0x6a, 0x6d, 0x6f, 0x71, 0x73,
-  0x75, 0x77, 0x79, 0x7b, 0x7d, 0x7f, 0x81, 0x84, 0x86, 0x88, 0x8a, 0x8c, 0x8d, 0x8f, 0x91, 0x93,
-  0x95, 0x97, 0x99, 0x9b, 0x9d, 0x9f, 0xa1, 0xa2, 0xa4, 0xa6, 0xa8, 0xaa, 0xac, 0xad, 0xaf, 0xb1,
-  0xb3, 0xb5, 0xb6, 0xb8, 0xba, 0xbc, 0xbd, 0xbf, 0xc1, 0xc2, 0xc4, 0xc6, 0xc8, 0xc9, 0xcb, 0xcd,
-  0xce, 0xd0, 0xd1, 0xd3, 0xd5, 0xd6, 0xd8, 0xda, 0xdb, 0xdd, 0xde, 0xe0, 0xe1, 0xe3, 0xe5, 0xe6,
-  0xe8, 0xe9, 0xeb, 0xec, 0xee, 0xef, 0xf1, 0xf2, 0xf4, 0xf5, 0xf7, 0xf8, 0xfa, 0xfb, 0xfd, 0xfe]
+/-- `LOG2_TAB` (128 bytes, entry `i` = 8-bit fixed-point `log2((128+i)/128)` rounded down), packed
+    little-endian into one natural number so that a lookup is a shift and a mask -/
+def LOG2_TAB_PACKED : Nat := 0xfefdfbfaf8f7f5f4f2f1efeeecebe9e8e6e5e3e1e0dedddbdad8d6d5d3d1d0cecdcbc9c8c6c4c2c1bfbdbcbab8b6b5b3b1afadacaaa8a6a4a2a19f9d9b99979593918f8d8c8a888684817f7d7b79777573716f6d6a68666462605d5b59575452504d4b494644413f3d3a383533302e2b282623211e1b191613100e0b08050200
+
+/-- `LOG2_TAB[i]` (0 outside the table, which no caller reaches) -/
+def log2Tab (i : Nat) : Nat := if i < 128 then (LOG2_TAB_PACKED >>> (8 * i)) % 256 else 0
 
 /-- `log2_fp8(n)` for `0xff < n ≤ 0xffff`: 8-bit fixed-point under-estimate of `log2 n` -/
 def log2Fp8 (n : Nat) : Nat :=
   let nbits := bitLen n
   if n < 0x200 then
-    let lookup := LOG2_TAB.getD (n / 2 - 0x80) 0
+    let lookup := log2Tab (n / 2 - 0x80)
     let est := lookup + (7 + 1) * 256
     est + (if n < 354 ∧ n % 2 = 1 then 1 else 0)
   else if n < 0x4000 + 0x80 then
     let shift := nbits - 8
     let mask := n / 2 ^ (shift - 2)
-    let lookup := LOG2_TAB.getD (mask / 4 - 0x80) 0
+    let lookup := log2Tab (mask / 4 - 0x80)
     let est := lookup + (7 + shift) * 256
     est + (if mask % 4 = 3 then 1 else 0)
   else
     let shift := nbits - 8
     let mask := n / 2 ^ (shift - 7)
-    let topEst := LOG2_TAB.getD (mask / 128 - 0x80) 0
+    let topEst := log2Tab (mask / 128 - 0x80)
     let est := topEst + (7 + shift) * 256
     est + (if mask % 128 ≥ 80 then 1 else 0)
 
@@ -178,10 +175,10 @@ def ceilLog2Fp8 (n : Nat) : Nat :=
   let nbits := bitLen n
   if n < 0x80 then
     let shift := 8 - nbits
-    LOG2_TAB.getD (n * 2 ^ shift - 0x80) 0 + (7 - shift) * 256 + 1
+    log2Tab (n * 2 ^ shift - 0x80) + (7 - shift) * 256 + 1
   else if n < 0x200 then
     let shift := nbits - 8
-    let est := LOG2_TAB.getD (n / 2 ^ shift - 0x80) 0 + (7 + shift) * 256 + 1
+    let est := log2Tab (n / 2 ^ shift - 0x80) + (7 + shift) * 256 + 1
     if n > 0x100 ∧ n % 2 = 1 then est + 2 else est
   else
     let shift := nbits - 8
@@ -189,7 +186,7 @@ def ceilLog2Fp8 (n : Nat) : Nat :=
     let mask8 := mask10 / 4
     if mask8 = 255 then 0x100 + (7 + shift) * 256
     else
-      let est := LOG2_TAB.getD (mask8 + 1 - 0x80) 0 + (7 + shift) * 256 + 1
+      let est := log2Tab (mask8 + 1 - 0x80) + (7 + shift) * 256 + 1
       est - (if mask10 % 4 = 0 then 1 else 0)
 
 end Dashu.Model.NT
